@@ -103,6 +103,7 @@ def run(ck, w):
         ck.ok(o, "%d site(s)" % len(sites), instances=len(sites))
 
     _version_default_is_unsupported(ck, w)
+    _read_hunk_returns_decoded(ck, w)
 
     # ---- 3. loudness on restore / list ---------------------------------------------------------------------
     o = ck.ob("C10.3", "under restore and iter_entries every read/decoding failure is reported or propagated")
@@ -212,3 +213,36 @@ def _version_default_is_unsupported(ck, w):
         ck.fail(o, b.name, "unparseable version treated as supported", "unwrap_or default is not false", bad[0].site())
     else:
         ck.ok(o)
+
+
+def _read_hunk_returns_decoded(ck, w):
+    """C10.3g: read_hunk hands out entries only if they were decoded from the bytes read."""
+    lib = w.lib
+    rh = w.body("index::IndexRead::read_hunk")
+    o = ck.ob("C10.3g", "read_hunk returns Ok(Some(entries)) only with entries decoded (decompress + from_slice) from the hunk file - no shortcut for odd files")
+    somes = [(bb, st) for bb, j, st in rules.agg_sites(rh, "std::option::Option", "Some")]
+    bad = []
+    n = 0
+    for bb, st in somes:
+        if "IndexEntry" not in rh.locals[st["pl"]["l"]]:
+            continue
+        n += 1
+        orig = flow.origins_x(lib, rh, st["rv"]["ops"][0], through_calls=[r"Try>?::branch$", r"Result::<T, E>::map_err$"])
+        if "serde_json::from_slice" not in flow.origin_calls(orig):
+            bad.append((bb, st, flow.origin_summary(orig)))
+    dec = [e for e in rh.events if e.bb in rh.live and e.name == "serde_json::from_slice"]
+    src_ok = False
+    for e in dec:
+        so = flow.origins_x(lib, rh, e.args[0], through_calls=[r"Try>?::branch$", r"Deref>::deref$"], through_all=[r"Decompressor::decompress$"])
+        if any(c.endswith("Transport::read") for c in flow.origin_calls(so)) or any(x[0] == "via" and "decompress" in x[1] for x in so):
+            src_ok = True
+    if n == 0:
+        ck.fail(o, rh.name, "read_hunk never returns entries", "no Ok(Some(entries))")
+    elif bad:
+        for bb, st, why in bad:
+            ck.fail(o, rh.name, "entries returned that were not decoded from the file",
+                    "Ok(Some(..)) built from %s: a damaged (e.g. emptied) hunk is then reported as a healthy empty one" % why, "%s:%d" % (rh.file, st["line"]))
+    elif not src_ok:
+        ck.fail(o, rh.name, "decoded bytes are not the decompressed file", "from_slice input provenance changed")
+    else:
+        ck.ok(o, "%d return site(s)" % n, instances=n)
